@@ -30,6 +30,7 @@ LABELS = {
     ('run', 'thread = self.prepare_thread'): 'r2',
     ('run', 'thread.join()'): 'r3',
     ('run', "if not hasattr(self, 'conn'):"): 'r4',
+    ('_call', 'with self.call_lock:'): ('c4', 'cx'),
     ('_call', 'self.conn.send_bytes(dumps((name, args, kwargs)))'): 'c5',
     ('_call', 'result, is_ok = loads(self.conn.recv_bytes())'): 'c6',
     ('close', 'self.conn'): 'k1',
@@ -37,7 +38,7 @@ LABELS = {
     ('close', 'self.conn.close()'): 'k3',
     ('close', 'del self.conn'): 'k4',
 }
-SHARED_HINTS = ('prepare_thread', 'self.conn', 'prepare_lock', 'Popen(', 'Client(', 'thread.join(')
+SHARED_HINTS = ('prepare_thread', 'self.conn', 'prepare_lock', 'call_lock', 'Popen(', 'Client(', 'thread.join(')
 
 
 class Abort(BaseException):
@@ -132,8 +133,9 @@ class World(object):
                 self.unknown_labels.add(lab)
             return lab
         if isinstance(lab, tuple):
-            lk = self.lock
-            return lab[1] if (lk is not None and lk.holder == self.me()) else lab[0]
+            # a `with self.<lock>:` line is passed twice: entering (not the holder yet) and leaving
+            lk = getattr(frame.f_locals.get('self'), text[len('with self.'):-1], None) if text.startswith('with self.') else self.lock
+            return lab[1] if (lk is not None and getattr(lk, 'holder', None) == self.me()) else lab[0]
         return lab
 
     def tracer(self, frame, event, arg):
@@ -183,7 +185,8 @@ class CoopLock(object):
     def __init__(self, world):
         self.w = world
         self.holder = None
-        world.lock = self
+        if world.lock is None:
+            world.lock = self        # the first lock the client creates: prepare_lock
 
     def acquire(self, blocking=True, timeout=-1):
         me = self.w.me()
@@ -385,7 +388,8 @@ def projection(world, env, names):
         else:
             pc[n] = a
     live = sum(1 for s in world.servers if s.state == 'launched')
-    return {'pc': pc, 'lock': (lk.holder or '') if lk else '',
+    cl = getattr(env, 'call_lock', None)
+    return {'pc': pc, 'lock': (lk.holder or '') if lk else '', 'clock': (getattr(cl, 'holder', None) or '') if cl is not None else '',
             'pt': getattr(env, 'prepare_thread', None) is not None,
             'conn': hasattr(env, 'conn'), 'live': live}
 
